@@ -1,8 +1,23 @@
 (* Props/C08.v -- the property theorems of C08 (second half: ownership violations are rejected),
    over the model C08/Borrow.v of the borrow checker and the declarative semantics C08/Spec.v. *)
 From Coq Require Import List Bool Arith.
-From C08 Require Import Lowered Borrow Spec.
+From C08 Require Import Lowered Borrow Spec Sound.
 Import ListNotations.
+
+(* Soundness of the borrow checker (model of borrow_check/{mod,demand}.rs + analysis/backward.rs)
+   for the declarative ownership semantics of Spec.v: if it reports nothing for a lowered function
+   then no path of the function - through any sequence of match arms and gotos, ending at a Return,
+   at a Panic or at a panicable call that panics - uses a non-copyable value after it was moved or
+   lets a never-used value go out of scope that is neither Drop nor Destruct (nor, on a path that
+   ends in a panic, PanicDestruct).  Contrapositive: a function with such a path gets a diagnostic
+   (VariableMoved / VariableNotDropped / DesnappingANonCopyableType, or the analysis itself fails).
+   Hypothesis remap_flags_ok: both sides of every remapping entry have the same capabilities (they
+   have the same type in the compiler); the tie checks it on every translated function.
+   PARTIAL with respect to the property: this is its second sentence, over the model; the first
+   sentence (error-free programs compile) is explored by the impl-level oracle, not proved. *)
+Theorem C08_borrow_sound : forall L : lowered,
+  remap_flags_ok L = true -> borrow_check L = [] -> forall p : path, ~ bad L p.
+Proof. exact borrow_sound. Qed.
 
 (* use after move: v1 (not copyable) is passed to two calls *)
 Definition ex_uam : lowered :=
@@ -34,3 +49,5 @@ Example C08_example_diamond :
   borrow_check ex_diamond = [] /\ remap_flags_ok ex_diamond = true /\
   exec_path ex_diamond (Path [1; 3] PEnd) = Good /\ exec_path ex_diamond (Path [2; 3] PEnd) = Good.
 Proof. repeat split; vm_compute; reflexivity. Qed.
+
+Print Assumptions C08_borrow_sound.
